@@ -9,13 +9,21 @@ Open Scope N_scope.
 
 (* For ALL configurations and ALL sequences of client subscribe commands (stream, shared-poll
    and map routes, callbacks answered at once or held and completed in any order),
-   server-side subscribes, unsubscribes and enqueues: after every step the connection holds at
+   server-side subscribes, unsubscribes (also one that waits for a held subscribe callback),
+   enqueues, and whatever server-side subscriptions the connection starts with: after every step the connection holds at
    most [limit] channels, counting the reservations of subscribes still in flight. *)
 Theorem C37_limit_never_exceeded :
-  forall g ls t, trace g init ls = Some t ->
+  forall g names ls t, trace g (fst (start g names)) ls = Some t ->
     forall o s, In (o, s) t -> g_limit g = 0 \/ held s <= g_limit g.
 Proof. exact limit_invariant. Qed.
 Print Assumptions C37_limit_never_exceeded.
+
+(* Connect-time server-side subscriptions above the limit disconnect with 3505 and none is created. *)
+Theorem C37_connect_over_limit :
+  forall g names, 0 < g_limit g -> g_limit g < N.of_nat (length names) ->
+    start g names = (mkSt true [] [] [] [] 0 0, [OClose 3505]).
+Proof. exact connect_over_limit. Qed.
+Print Assumptions C37_connect_over_limit.
 
 (* The code before the fixes violates it: overlapping map subscribes with held callbacks all
    pass the limit check (a map subscribe reserved nothing) and are all installed. *)
